@@ -403,6 +403,20 @@ func runScenario(sp scenSpec, f fault, rt time.Duration) (*scenOutcome, error) {
 		cancelParent()
 		out.cancelAtWritten = 0
 	}
+	var freeClose sync.WaitGroup
+	if f.Kind == "foreign-close-free" {
+		// a goroutine that shares nothing with the call but the client: it closes the client (and looks at its state) f.K
+		// microseconds after the call was started, with no synchronisation against any step of the call
+		freeClose.Add(1)
+		go func() {
+			defer freeClose.Done()
+			time.Sleep(time.Duration(f.K) * time.Microsecond)
+			_ = sc.client.IsClosed()
+			_ = sc.client.Close()
+			_ = sc.client.IsClosed()
+		}()
+	}
+	defer freeClose.Wait()
 	done := make(chan error, 1)
 	t0 := time.Now()
 	go func() { done <- sc.client.Do(ctx, q) }()
